@@ -153,6 +153,9 @@ func (e *Executor) RunTask(ctx context.Context, call *Call) error {
 	return e.startExecution(ctx, t, func(ctx context.Context) error {
 		e.Logger.VerboseErrf(logger.Magenta, "task: %q started\n", call.Task)
 		if err := e.runDeps(ctx, t); err != nil {
+			if _, isExitError := interp.IsExitStatus(err); isExitError && !call.Indirect {
+				return &errors.TaskRunError{TaskName: t.Task, Err: err}
+			}
 			return err
 		}
 
